@@ -5,6 +5,7 @@ import Spine.TimePeriod
 import Spine.C19
 import Spine.RndSound
 import Spine.C19Exec
+import Spine.DurTextThm
 /-!
 # C19 — numeric and temporal conversions are exact within their declared precision
 
@@ -187,6 +188,20 @@ example : (29 : Int).natAbs < 2 ^ 50 ∧ (-199998 : Int).natAbs < 2 ^ 50 ∧
     (2 ^ 50 - 1 : Int).natAbs < 2 ^ 50 ∧
     newScaled .repaired (parseDec (2 ^ 50 - 1) 4) = (2 ^ 50 - 1, -4) := by decide +kernel
 
+/-- sentence 1 of the property carries no magnitude bound, binary64 forces one: the decimals 2^53 and
+    2^53 + 1 (no fractional digit at all) are the SAME double, so no conversion of that double can return
+    both; the domain of clause (a) is therefore bounded, at `d = 0` by exactly 2^53 (the largest numerator
+    the theorem above admits is 2^50 - 1; between 2^50 and the first pair of decimals that collide the
+    clause is neither proved nor refuted — for d = 1..4 a search on the real code from 2^51 to 2^51 + 3*10^7
+    found no failing decimal). Kernel-checked. -/
+theorem c19_scaled_exact_needs_bound :
+    parseDec (2 ^ 53 + 1) 0 = parseDec (2 ^ 53) 0 ∧
+    newScaled .repaired (parseDec (2 ^ 53 + 1) 0) = (2 ^ 53, 0) ∧
+    newScaled .repaired (parseDec (2 ^ 53 - 1) 0) = (2 ^ 53 - 1, 0) := by decide +kernel
+
+/-- non-vacuity: 2^53 + 1 is not below the bound of `ScaledExact`, 2^50 - 1 is -/
+example : ¬ ((2 ^ 53 + 1 : Int).natAbs < 2 ^ 50) ∧ (2 ^ 50 - 1 : Int).natAbs < 2 ^ 50 := by decide
+
 /-! ## 4. Clause (b): within 0.0001 below 2^53 / 10^4 — and not above -/
 
 /-- clause (b): every normal double `v = ± m * 2^-E` of magnitude at most `(2^53 - 1) / 10^4` (≈ 9.007e11)
@@ -268,6 +283,114 @@ theorem c19_duration_ge_3277_days_refuted :
   have := h (3277 * 24 * 36000)
   rw [Dur.duration_3277_days_inexact.2] at this
   exact absurd this (by decide)
+
+/-- the bound of clause (c) is EXACT: every multiple of 100 ms below 3277 days survives, and 3277 days is the
+    least one that does not (it comes back 6 h 6 min 18 s short) -/
+theorem c19_duration_threshold_exact :
+    (∀ n : Nat, n < 3277 * 864000 → Dur.approx (Dur.newOf n) = n) ∧
+    Dur.approx (Dur.newOf (3277 * 864000)) = 3277 * 864000 - 219780 := by
+  refine ⟨fun n h => Dur.c19_duration_exact n ?_, by decide⟩
+  unfold Dur.unitsPerHour; omega
+
+/-- non-vacuity: the last duration below the bound, and the bound in hours, minutes, seconds -/
+example : Dur.approx (Dur.newOf (3277 * 864000 - 1)) = 3277 * 864000 - 1 ∧
+    219780 = ((6 * 60 + 6) * 60 + 18) * 10 := by decide
+
+/-! ## 5b. Clause (c) at the level of the SPINE text
+
+`Spine.DurText` transcribes the period library byte by byte: `render` (`period64.String`), `parse`
+(`period.Parse` with its scanner, the state of the seven designators, the fraction rule, weeks,
+`normalise64`, `toPeriod`) and `approxNs` (`DurationApprox`, `int64` wrap-around included); the check
+compares all three with the real code on every run (texts written: byte for byte on the dense sweep;
+texts read: every written text, a grid of all designator subsets, random well-formed and damaged texts). -/
+
+/-- TEXT LEVEL REFINES FIELD LEVEL, for every duration an `int64` holds (either sign, any fraction of
+    100 ms, below and above 3277 days): the text `NewDurationType` writes is accepted by
+    `GetTimeDuration` and read as exactly `DurationApprox (NewOf d)` — writing, scanning, the designator
+    automaton and the normalisation in between lose nothing. (This was assumption A-period.)
+    The hypothesis `monthsOk` is not used by the proof: it marks the domain in which `Spine.Dur.newOf`
+    transcribes the library. Outside it (a band of relative width 10^-6 just above whole numbers of years,
+    all above 3277 days) the library's signed months field is -1, found by this round's text comparison:
+    `c19_duration_text_negative_months`. -/
+theorem c19_duration_text_refines_fields (ns : Int) (h : ns.natAbs / 100000000 < DurText.maxUnits)
+    (_hm : Dur.monthsOk (ns.natAbs / 100000000) = true) :
+    DurText.getTimeDuration (DurText.newDurationType ns) = some (Dur.roundTripNs ns) :=
+  DurText.getTimeDuration_newDurationType ns h
+
+/-- non-vacuity: the hypothesis admits the largest and the smallest `int64`; 3276 h are written as hours and
+    read as 136 days 12 h (the parser's ripple), with the same duration -/
+example : (9223372036854775807 : Int).natAbs / 100000000 < DurText.maxUnits ∧
+    (-9223372036854775808 : Int).natAbs / 100000000 < DurText.maxUnits ∧
+    DurText.newDurationType (3276 * 3600 * 1000000000) = [80, 84, 51, 50, 55, 54, 72] ∧
+    DurText.parse [80, 84, 51, 50, 55, 54, 72] = some ⟨0, 0, 1360, 120, 0, 0, false⟩ := by decide +kernel
+
+/-- clause (c) on the text, FULL for the stated domain: every duration that is a whole multiple of 100 ms
+    and shorter than 3277 days, of either sign, is written as a text that is read back as exactly that
+    duration (nanoseconds) -/
+theorem c19_duration_text_exact (z : Int) (h : z.natAbs / Dur.unitsPerHour / 24 < 3277) :
+    DurText.getTimeDuration (DurText.newDurationType (z * 100000000)) = some (z * 100000000) := by
+  have hb : (z * 100000000).natAbs / 100000000 = z.natAbs := by omega
+  rw [c19_duration_text_refines_fields _ (by rw [hb]; unfold DurText.maxUnits; unfold Dur.unitsPerHour at h; omega)
+    (by rw [hb]; simp [Dur.monthsOk, h])]
+  have e := Dur.c19_duration_exact z.natAbs h
+  unfold Dur.roundTripNs
+  rw [hb, e]
+  congr 1
+  split <;> omega
+
+/-- non-vacuity: -(3276 d 23 h 59 min 59.9 s) is in the domain; its text has every field the domain can
+    produce (3276 days are 468 weeks): `-P468WT23H59M59.9S`; one day less is written with days -/
+example : ((-(3277 * 864000 - 1) : Int)).natAbs / Dur.unitsPerHour / 24 < 3277 ∧
+    DurText.newDurationType (-(3277 * 864000 - 1) * 100000000) =
+      [45, 80, 52, 54, 56, 87, 84, 50, 51, 72, 53, 57, 77, 53, 57, 46, 57, 83] ∧
+    DurText.newDurationType ((3276 * 864000 - 1) * 100000000) =
+      [80, 51, 50, 55, 53, 68, 84, 50, 51, 72, 53, 57, 77, 53, 57, 46, 57, 83] := by decide +kernel
+
+/-- a duration with a fraction of 100 ms loses exactly that fraction (below 3277 days) -/
+theorem c19_duration_text_truncates (ns : Int) (h0 : 0 ≤ ns) (h : ns.natAbs / 100000000 / Dur.unitsPerHour / 24 < 3277) :
+    DurText.getTimeDuration (DurText.newDurationType ns) = some (ns / 100000000 * 100000000) := by
+  rw [c19_duration_text_refines_fields _ (by unfold DurText.maxUnits; unfold Dur.unitsPerHour at h; omega)
+    (by simp [Dur.monthsOk, h])]
+  have e := Dur.c19_duration_exact (ns.natAbs / 100000000) h
+  unfold Dur.roundTripNs
+  rw [e, if_neg (by omega)]
+  congr 1
+  omega
+
+/-- non-vacuity: 1.25 s is written as `PT1.2S` -/
+example : DurText.newDurationType 1250000000 = [80, 84, 49, 46, 50, 83] ∧
+    DurText.getTimeDuration [80, 84, 49, 46, 50, 83] = some 1200000000 := by decide +kernel
+
+/-- REFUTED from 3277 days on, on the text (known finding `duration-ge-3277-days`): 3277 days are written as
+    `P8Y11M20D` and read back as 3276 d 17 h 53 min 42 s; ten years of 365 days are written as `P9Y11M4W` -/
+theorem c19_duration_text_ge_3277_days_refuted :
+    DurText.newDurationType (3277 * 86400 * 1000000000) = [80, 56, 89, 49, 49, 77, 50, 48, 68] ∧
+    DurText.getTimeDuration [80, 56, 89, 49, 49, 77, 50, 48, 68] =
+      some ((((3276 * 24 + 17) * 60 + 53) * 60 + 42) * 1000000000) ∧
+    DurText.newDurationType (3650 * 86400 * 1000000000) = [80, 57, 89, 49, 49, 77, 52, 87] := by
+  decide +kernel
+
+/-- OUTSIDE the model (found by the text comparison of this round, inside the known finding
+    `duration-ge-3277-days`): for 8583573421155919265 ns (272 years and a few hours) the library's months
+    are `⌊99346/30.4369⌋ - 12·⌊99346/365.2425⌋ = 3263 - 3264 = -1`; it writes `-P-272Y1M-30DT-21H`, which its
+    own parser refuses (the model's scanner too: a sign is no designator). `monthsOk` excludes exactly
+    these durations. -/
+theorem c19_duration_text_negative_months :
+    Dur.monthsOk (8583573421155919265 / 100000000) = false ∧
+    10000 * (8583573421155919265 / 100000000 / 36000 / 24) / 304369 = 3263 ∧
+    12 * (10000 * (8583573421155919265 / 100000000 / 36000 / 24) / 3652425) = 3264 ∧
+    DurText.getTimeDuration [45, 80, 45, 50, 55, 50, 89, 49, 77, 45, 51, 48, 68, 84, 45, 50, 49, 72] = none := by
+  decide +kernel
+
+/-- non-vacuity of `monthsOk`: 272 years sharp and everything below 3277 days are inside -/
+example : Dur.monthsOk (272 * 365 * 864000) = true ∧ Dur.monthsOk (3277 * 864000 - 1) = true ∧
+    Dur.monthsOk (3277 * 864000) = true := by decide +kernel
+
+/-- what a peer may send beyond the library's range is NOT refused: a text of more than 292 years is read
+    as a meaningless duration (`int64` wrap-around in `DurationApprox`; modelled as written, compared with
+    the real code; outside the statement of C19, which is about texts the stack writes) -/
+theorem c19_duration_text_wraps : DurText.getTimeDuration [80, 51, 48, 48, 89] = some (-8979658473709551616) := by
+  decide +kernel
 
 /-! ## 6. Clause (e): relative end time of a time period -/
 
